@@ -23,7 +23,40 @@ var gDefault = Conf{S: "dflt", N: 7}
 const (
 	gFailCtor = "FAILCTOR" // value of `s` that makes constructors with an error result fail
 	gFailFac  = "FAILFAC"  // value of `s` that makes registered factories with an error result fail
+	// either of them may carry a suffix saying what the failing call returns BESIDE the error (nothing: nil)
+	gBesideValue    = "+VALUE"    // a non-nil first result (a half-built component; factory constructors: a working factory)
+	gBesideTypedNil = "+TYPEDNIL" // interface results: an interface holding a nil *Impl
 )
+
+// gFails: does the setting `s` order the failure `marker` (gFailCtor / gFailFac), and with what beside the error.
+func gFails(s, marker string) (fails bool, beside string) {
+	if !strings.HasPrefix(s, marker) {
+		return false, besideNil
+	}
+	switch s[len(marker):] {
+	case gBesideValue:
+		return true, besideValue
+	case gBesideTypedNil:
+		return true, besideTypedNil
+	}
+	return true, besideNil
+}
+
+// gBesideImpl: the *Impl a failing call returns beside its error (never one of g.impls).
+func gBesideImpl(beside, typ string, conf *Conf) *Impl {
+	if beside == besideValue {
+		return &Impl{conf: conf, serial: -1, owner: typ + " (returned beside an error)"}
+	}
+	return nil
+}
+
+// gBesideComp: the same for calls whose result type is the interface: nil, a value, or a typed nil.
+func gBesideComp(beside, typ string, conf *Conf) Comp {
+	if beside == besideNil {
+		return nil
+	}
+	return gBesideImpl(beside, typ, conf) // besideTypedNil: a Comp holding (*Impl)(nil)
+}
 
 var (
 	errGCtor = errors.New("c18 global constructor failed")
@@ -75,6 +108,7 @@ type gType struct {
 	HasDefault bool
 	CtorErr    bool // constructor can fail (s == FAILCTOR)
 	FacErr     bool // registered factory can fail (s == FAILFAC)
+	Concrete   bool // the (component) constructor's declared result is *Impl, not an interface: it has no typed nil
 	// Strict: the config type is StrictConf, whose validate rules the registered default (the zero config when
 	// there is none) does NOT satisfy: the user has to override `s` and / or `n` (cf. the guns' required `target`).
 	Strict bool
@@ -100,7 +134,7 @@ var (
 
 var gTypes = []gType{
 	{Name: "c18/component-struct-default", Kind: "component", HasConf: true, HasDefault: true},
-	{Name: "c18/component-ptr-default-err", Kind: "component", HasConf: true, HasDefault: true, CtorErr: true},
+	{Name: "c18/component-ptr-default-err", Kind: "component", HasConf: true, HasDefault: true, CtorErr: true, Concrete: true},
 	{Name: "c18/component-struct-nodefault", Kind: "component", HasConf: true},
 	{Name: "c18/component-noconf", Kind: "component"},
 	{Name: "c18/factory-ptr-default-err", Kind: "factory", HasConf: true, HasDefault: true, CtorErr: true, FacErr: true},
@@ -109,7 +143,7 @@ var gTypes = []gType{
 	// every constructor shape again, with defaults that need overriding (index 7 and up)
 	{Name: "c18/strict-component-struct-default", Kind: "component", HasConf: true, HasDefault: true, Strict: true, Def: gDefNeedsS},
 	{Name: "c18/strict-component-ptr-default-err", Kind: "component", HasConf: true, HasDefault: true, CtorErr: true, Strict: true, Def: gDefNeedsN},
-	{Name: "c18/strict-component-struct-nodefault-err", Kind: "component", HasConf: true, CtorErr: true, Strict: true},
+	{Name: "c18/strict-component-struct-nodefault-err", Kind: "component", HasConf: true, CtorErr: true, Strict: true, Concrete: true},
 	{Name: "c18/strict-component-ptr-nodefault", Kind: "component", HasConf: true, Strict: true},
 	{Name: "c18/strict-factory-ptr-default-err", Kind: "factory", HasConf: true, HasDefault: true, CtorErr: true, FacErr: true, Strict: true, Def: gDefNeedsS},
 	{Name: "c18/strict-factory-struct-default", Kind: "factory", HasConf: true, HasDefault: true, Strict: true, Def: gDefNeedsN},
@@ -133,8 +167,8 @@ func gRegister() {
 		}, defStruct)
 		register.RegisterPtr(ptr, gTypes[1].Name, func(c *Conf) (*Impl, error) {
 			gCtor(gTypes[1].Name, c)
-			if c.S == gFailCtor {
-				return nil, errGCtor
+			if fails, beside := gFails(c.S, gFailCtor); fails {
+				return gBesideImpl(beside, gTypes[1].Name, c), errGCtor
 			}
 			return gImpl(gTypes[1].Name, c), nil
 		}, defPtr)
@@ -148,19 +182,23 @@ func gRegister() {
 		})
 		register.RegisterPtr(ptr, gTypes[4].Name, func(c *Conf) (func() (Comp, error), error) {
 			gCtor(gTypes[4].Name, c)
-			if c.S == gFailCtor {
-				return nil, errGCtor
-			}
-			return func() (Comp, error) {
+			fac := func() (Comp, error) {
 				g.mu.Lock()
 				g.facs++
 				g.mu.Unlock()
-				if c.S == gFailFac {
-					return nil, errGFac
+				if fails, beside := gFails(c.S, gFailFac); fails {
+					return gBesideComp(beside, gTypes[4].Name, c), errGFac
 				}
 				own := c.clone()
 				return gImpl(gTypes[4].Name, &own), nil
-			}, nil
+			}
+			if fails, beside := gFails(c.S, gFailCtor); fails {
+				if beside == besideValue {
+					return fac, errGCtor
+				}
+				return nil, errGCtor
+			}
+			return fac, nil
 		}, defPtr)
 		register.RegisterPtr(ptr, gTypes[5].Name, func(c Conf) func() Comp {
 			gCtor(gTypes[5].Name, &c)
@@ -202,8 +240,8 @@ func gRegisterStrict() {
 			g.mu.Lock()
 			g.facs++
 			g.mu.Unlock()
-			if ty.FacErr && c.S == gFailFac {
-				return nil, errGFac
+			if fails, beside := gFails(c.S, gFailFac); ty.FacErr && fails {
+				return gBesideComp(beside, ty.Name, c), errGFac
 			}
 			own := c.clone()
 			return gImpl(ty.Name, &own), nil
@@ -218,16 +256,16 @@ func gRegisterStrict() {
 	register.RegisterPtr(ptr, t(1).Name, func(sc *StrictConf) (Comp, error) {
 		c := (*Conf)(sc)
 		gCtor(t(1).Name, c)
-		if c.S == gFailCtor {
-			return nil, errGCtor
+		if fails, beside := gFails(c.S, gFailCtor); fails {
+			return gBesideComp(beside, t(1).Name, c), errGCtor
 		}
 		return gImpl(t(1).Name, c), nil
 	}, defPtr(t(1).Def))
 	register.RegisterPtr(ptr, t(2).Name, func(sc StrictConf) (*Impl, error) {
 		c := (*Conf)(&sc)
 		gCtor(t(2).Name, c)
-		if c.S == gFailCtor {
-			return nil, errGCtor
+		if fails, beside := gFails(c.S, gFailCtor); fails {
+			return gBesideImpl(beside, t(2).Name, c), errGCtor
 		}
 		return gImpl(t(2).Name, c), nil
 	})
@@ -240,7 +278,10 @@ func gRegisterStrict() {
 	register.RegisterPtr(ptr, t(4).Name, func(sc *StrictConf) (func() (Comp, error), error) {
 		c := (*Conf)(sc)
 		gCtor(t(4).Name, c)
-		if c.S == gFailCtor {
+		if fails, beside := gFails(c.S, gFailCtor); fails {
+			if beside == besideValue {
+				return facOf(t(4), c), errGCtor
+			}
 			return nil, errGCtor
 		}
 		return facOf(t(4), c), nil
@@ -260,7 +301,10 @@ func gRegisterStrict() {
 	register.RegisterPtr(ptr, t(7).Name, func(sc *StrictConf) (func() (Comp, error), error) {
 		c := (*Conf)(sc)
 		gCtor(t(7).Name, c)
-		if c.S == gFailCtor {
+		if fails, beside := gFails(c.S, gFailCtor); fails {
+			if beside == besideValue {
+				return facOf(t(7), c), errGCtor
+			}
 			return nil, errGCtor
 		}
 		return facOf(t(7), c), nil
@@ -279,6 +323,10 @@ type ConfigCase struct {
 	// Section (Strict types): type_only = the plugin section holds nothing but the type key | overriding = it sets
 	// at least what the default lacks | "" = whatever Settings says
 	Section string `json:"section,omitempty"`
+	// NamedField (factory fields): the field has the DEFINED func type CompFactory / CompFactoryNoErr
+	NamedField bool `json:"named_field,omitempty"`
+	// Beside (ctor_fail, fac_fail): what the failing call returns together with its error: "" | value | typednil
+	Beside string `json:"beside,omitempty"`
 }
 
 func genConfigCase(t *rapid.T) ConfigCase {
@@ -319,6 +367,12 @@ func genConfigCase(t *rapid.T) ConfigCase {
 		bads = []string{""} // nothing else in the section
 	}
 	c.Bad = rapid.SampledFrom(bads).Draw(t, "bad")
+	if c.Bad == "ctor_fail" || c.Bad == "fac_fail" {
+		c.Beside = rapid.SampledFrom([]string{besideNil, besideValue, besideValue, besideTypedNil}).Draw(t, "beside")
+	}
+	if c.Field != "component" {
+		c.NamedField = oneIn(t, 3, "namedField")
+	}
 	c.TypeKey = rapid.SampledFrom([]string{"type", "type", "type", "Type", "TYPE"}).Draw(t, "typeKey")
 	c.YAMLKeys = rapid.Bool().Draw(t, "yamlKeys")
 	c.Products = rapid.IntRange(1, 5).Draw(t, "products")
@@ -361,9 +415,9 @@ func (c ConfigCase) pluginData() any {
 	case "validation":
 		m["n"] = 1000001 // Conf.N carries validate:"max=1000000"
 	case "ctor_fail":
-		m["s"] = gFailCtor
+		m["s"] = gFailCtor + c.besideSuffix()
 	case "fac_fail":
-		m["s"] = gFailFac
+		m["s"] = gFailFac + c.besideSuffix()
 	}
 	if !c.YAMLKeys {
 		return m
@@ -373,6 +427,25 @@ func (c ConfigCase) pluginData() any {
 		y[k] = v
 	}
 	return y
+}
+
+func (c ConfigCase) besideSuffix() string {
+	switch c.Beside {
+	case besideValue:
+		return gBesideValue
+	case besideTypedNil:
+		return gBesideTypedNil
+	}
+	return ""
+}
+
+// effectiveBeside: what the failing call really returns beside its error (a func or a *Impl result has no typed nil).
+func (c ConfigCase) effectiveBeside() string {
+	ty := gTypes[c.Type]
+	if c.Beside == besideTypedNil && c.Bad == "ctor_fail" && (ty.Kind == "factory" || ty.Concrete) {
+		return besideNil
+	}
+	return c.Beside
 }
 
 func (c ConfigCase) expected() Conf {
@@ -429,6 +502,12 @@ func checkConfig(c ConfigCase, o *vf.Obs) error {
 	}
 	if (c.Bad == "ctor_fail" && !ty.CtorErr) || (c.Bad == "fac_fail" && !ty.FacErr) || ((c.Bad == "wrong_type" || c.Bad == "validation") && !ty.HasConf) {
 		return fmt.Errorf("harness: fault %q cannot be expressed for %s", c.Bad, ty.Name)
+	}
+	if !besideValid(c.Beside) || (c.Beside != besideNil && c.Bad != "ctor_fail" && c.Bad != "fac_fail") {
+		return fmt.Errorf("harness: beside %q with fault %q", c.Beside, c.Bad)
+	}
+	if c.NamedField && c.Field == "component" {
+		return fmt.Errorf("harness: a component field has no named factory type")
 	}
 	input := map[string]any{"p": c.pluginData()}
 
@@ -502,7 +581,31 @@ func checkConfig(c ConfigCase, o *vf.Obs) error {
 		viaPanic := c.Field == "factory_noerr"
 		var call func() outcome
 		var o1 outcome
-		if viaPanic {
+		switch {
+		case viaPanic && c.NamedField:
+			var dst struct {
+				P CompFactoryNoErr `config:"p"`
+			}
+			o1 = guarded(func() (any, error) { return nil, pand.Decode(input, &dst) })
+			call = func() outcome { return guarded(func() (any, error) { return dst.P(), nil }) }
+			if o1.err == nil && !o1.panicked && dst.P == nil {
+				return fmt.Errorf("Decode succeeded but left the factory field (of a defined func type) nil")
+			}
+		case c.NamedField:
+			var dst struct {
+				P CompFactory `config:"p"`
+			}
+			o1 = guarded(func() (any, error) { return nil, pand.Decode(input, &dst) })
+			call = func() outcome {
+				return guarded(func() (any, error) {
+					v, err := dst.P()
+					return v, err
+				})
+			}
+			if o1.err == nil && !o1.panicked && dst.P == nil {
+				return fmt.Errorf("Decode succeeded but left the factory field (of a defined func type) nil")
+			}
+		case viaPanic:
 			var dst struct {
 				P func() Comp `config:"p"`
 			}
@@ -511,7 +614,7 @@ func checkConfig(c ConfigCase, o *vf.Obs) error {
 			if o1.err == nil && !o1.panicked && dst.P == nil {
 				return fmt.Errorf("Decode succeeded but left the factory field nil")
 			}
-		} else {
+		default:
 			var dst struct {
 				P func() (Comp, error) `config:"p"`
 			}
@@ -630,6 +733,15 @@ func checkConfig(c ConfigCase, o *vf.Obs) error {
 	}
 	o.ClassIf(ty.Strict && !failing, "default_invalid_overridden_by_section")
 	o.ClassIf(c.YAMLKeys, "yaml_style_keys")
+	o.ClassIf(c.NamedField, "field_of_named_factory_type")
+	o.ClassIf(c.NamedField && ty.Kind == "factory", "field_of_named_factory_type_factory_constructor")
+	o.ClassIf(c.NamedField && c.Products >= 1 && !failing, "field_of_named_factory_type_products_made")
+	if eb := c.effectiveBeside(); eb != besideNil && !defaultInvalid {
+		o.Class("error_beside_nonnil_result")
+		o.ClassIf(eb == besideTypedNil, "error_beside_typed_nil")
+		o.ClassIf(c.Field == "component", "error_beside_nonnil_result_component_field")
+		o.ClassIf(c.Field != "component", "error_beside_nonnil_result_factory_field")
+	}
 	o.ClassIf(atProductPanic, "config_error_as_panic_at_product")
 	o.ClassIf(atProductResult, "config_error_as_result_at_product")
 	o.ClassIf(mutated, "config_mutated_by_product")
